@@ -1,9 +1,8 @@
 """Reference entity store: what exists, and what each kind of Finder must answer for one *typed* search.
 
 Existence:  a path-backed entity exists from the moment it or a descendant was created (its folder/file is there);
-            a constants-backed level (C11: "answered from those constants") follows FindInConstants as documented:
-            the constant values are appended to a literal parent without looking at the disk ("Finds itself if needed"),
-            and to every parent *found* by the parent source otherwise.
+            a constants-backed level (C11: "answered from those constants") holds the constant values under every
+            parent that exists in its parent source (literal parents are looked up there, searched parents are found there).
 The routing of types to sources is configuration *code* (spil_data_conf.get_finder_for); it is described declaratively
 here (sources_for_demo) and bound to the code at start by bind_sources().
 """
@@ -128,9 +127,12 @@ class Store:
         if rtyp is None:
             return set()
         rs = "/".join(root)
-        if "*" not in rs:
-            return {rs}
         parent = root[:-1]
+        if "*" not in rs:
+            # a constants-backed entity exists under a literal parent iff the parent exists in the parent source
+            if src["parent"] is None or not parent:
+                return {rs}
+            return {rs} if self._exists_in(src["parent"], "/".join(parent)) else set()
         if "*" in "/".join(parent) and parent:
             found = self.find_all("/".join(parent))
             out = set()
@@ -142,7 +144,17 @@ class Store:
                 else:
                     out |= self._append(fr, src, rtyp)
             return out
+        if parent and src["parent"] is not None and not self._exists_in(src["parent"], "/".join(parent)):
+            return set()
         return self._append("/".join(parent), src, rtyp)
+
+    def _exists_in(self, source_name, s):
+        t = self.ref.natural(s)[0]
+        if not t:
+            return False
+        if source_name == "paths":
+            return s in self.bytype.get(t, ())
+        return s in self.star_all(t, s)
 
     def _type_of(self, segs):
         t, _ = self.ref.natural("/".join(segs))
